@@ -231,6 +231,12 @@ class Interp:
         elif isinstance(s, ast.Assert):
             if not self.truth(self.ev(s.test)):
                 raise ExcRaised(Ref('builtin:AssertionError'))
+        elif isinstance(s, (ast.With, ast.AsyncWith)):
+            for item in s.items:
+                val = self.ev(item.context_expr)
+                if item.optional_vars is not None:
+                    self.store(item.optional_vars, val)
+            self.block(s.body)
         elif isinstance(s, ast.Try):
             # model: body runs; a raised *python-level* exception class is matched by name
             try:
@@ -562,6 +568,22 @@ class Interp:
             if isinstance(onode_, ast.ClassDef):
                 self.out.events.append(('construct', (ref,) + tuple(args)))
                 inst = Rec(cls=ref, args=tuple(args), kwargs=kwargs)
+                # dataclass-style: annotated fields (init=True) take the positional / keyword arguments in order
+                cm0, init0 = self.a.res.class_attr(ref, '__init__')
+                if not isinstance(init0, ast.FunctionDef):
+                    fields = []
+                    for m_, cnode in reversed(self.a.res.mro(ref)):
+                        for st in cnode.body:
+                            if isinstance(st, ast.AnnAssign) and isinstance(st.target, ast.Name):
+                                noinit = isinstance(st.value, ast.Call) and any(
+                                    k.arg == 'init' and isinstance(k.value, ast.Constant) and k.value.value is False for k in st.value.keywords)
+                                if not noinit:
+                                    fields.append(st.target.id)
+                    for name_, val_ in zip(fields, args):
+                        inst.set(name_, val_)
+                    for name_, val_ in kwargs.items():
+                        if name_ in fields:
+                            inst.set(name_, val_)
                 for ctor in ('__new__', '__init__'):
                     cm_, cfn = self.a.res.class_attr(ref, ctor)
                     if isinstance(cfn, ast.FunctionDef):
